@@ -10,7 +10,7 @@ import (
 // documents in different folders which spell a relative reference identically
 // (`models.json#/definitions/Item`) but mean different documents; every combination of element kind
 // (parameter / response), hop count of the import (1 or 2) and where the twins live.
-const TwinsCount = 2*2*3 + 3
+const TwinsCount = 2*2*3 + 3 + 6
 
 // the last three twin worlds are "echo" chains: a hop found in another document is spelled exactly
 // like the hop that led there (sub/x.json#/… inside api/sub/x.json means api/sub/sub/x.json)
@@ -23,6 +23,9 @@ var twinDirs = [][2]string{
 
 // Twins builds the idx-th twin world.
 func Twins(idx int) *model.World {
+	if idx >= 2*2*3+3 {
+		return escTwin(idx - 2*2*3 - 3)
+	}
 	if idx >= 2*2*3 {
 		return echo(idx - 2*2*3)
 	}
@@ -122,5 +125,43 @@ func echo(kind int) *model.World {
 	w.Docs[RootURL] = model.Norm(root)
 	w.Docs["file://"+Prefix+"/api/sub/x.json"] = model.Norm(mk("hop", map[string]interface{}{"$ref": ref}))
 	w.Docs["file://"+Prefix+"/api/sub/sub/x.json"] = model.Norm(mk("final", final))
+	return w
+}
+
+// escTwin builds the last six twin worlds: a definition whose NAME, written after "#/definitions/"
+// without escaping, spells a pointer to something else - "Pet/properties/owner" next to the property
+// owner of Pet, "x~1y" next to "x/y", "a%20b" next to "a b" - and which holds exactly that
+// reference. k%3 selects the pair, k/3 whether the odd-named definition also refers to itself.
+func escTwin(k int) *model.World {
+	leaf := func(d string) map[string]interface{} { return map[string]interface{}{"type": "string", "description": d} }
+	var plain, odd, refToPlain, refToOdd string
+	defs := map[string]interface{}{}
+	switch k % 3 {
+	case 0:
+		plain, odd = "Pet", "Pet/properties/owner"
+		refToPlain, refToOdd = "#/definitions/Pet/properties/owner", "#/definitions/Pet~1properties~1owner"
+		defs[plain] = map[string]interface{}{"type": "object", "description": "Pet", "properties": map[string]interface{}{"owner": leaf("the property owner of Pet")}}
+	case 1:
+		plain, odd = "x/y", "x~1y"
+		refToPlain, refToOdd = "#/definitions/x~1y", "#/definitions/x~01y"
+		defs[plain] = leaf("the definition named x/y")
+	default:
+		plain, odd = "a b", "a%20b"
+		refToPlain, refToOdd = "#/definitions/a%20b", "#/definitions/a%2520b"
+		defs[plain] = leaf("the definition named a b")
+	}
+	o := map[string]interface{}{"description": "the definition named " + odd, "properties": map[string]interface{}{"p": map[string]interface{}{"$ref": refToPlain}}}
+	if k/3 == 1 {
+		o["properties"].(map[string]interface{})["again"] = map[string]interface{}{"$ref": refToOdd}
+	}
+	defs[odd] = o
+	defs["User"] = map[string]interface{}{"description": "User", "properties": map[string]interface{}{"q": map[string]interface{}{"$ref": refToOdd}, "r": map[string]interface{}{"$ref": refToPlain}}}
+	root := map[string]interface{}{
+		"swagger": "2.0", "info": map[string]interface{}{"title": "escaped twins", "version": fmt.Sprint(k)}, "paths": map[string]interface{}{},
+		"definitions": defs,
+		"responses":   map[string]interface{}{"R": map[string]interface{}{"description": "r", "schema": map[string]interface{}{"$ref": refToOdd}}},
+	}
+	w := &model.World{Docs: map[string]interface{}{}, Root: RootURL}
+	w.Docs[RootURL] = model.Norm(root)
 	return w
 }
